@@ -77,6 +77,26 @@ class ProgramOptionsSave(Contract):
             if n.get('kind') == 'IfStmt':
                 cond = n['inner'][0]
                 lits = [x.get('value', '').strip('"') for x in _walk(cond) if x.get('kind') == 'StringLiteral']
+                # a skip list moved into a helper predicate (`if (isSkipped(it->first)) continue;`): the names the helper compares with
+                for c_ in _walk(cond):
+                    if c_.get('kind') != 'CallExpr':
+                        continue
+                    h_ = c_['inner'][0]
+                    while h_.get('kind') in ('ImplicitCastExpr', 'ParenExpr'):
+                        h_ = h_['inner'][0]
+                    hn = (h_.get('referencedDecl') or {}).get('name')
+                    if not hn or hn.startswith('operator'):
+                        continue
+                    defs_ = [f for q_, fl in tu.funcs.items() if q_.split('::')[-1] == hn for f in fl]
+                    if not defs_:
+                        try:
+                            from vf.ast import TU as _TU
+                            tu_h = _TU(self.tu, scratch, hn)
+                            defs_ = [f for q_, fl in tu_h.funcs.items() if q_.split('::')[-1] == hn for f in fl]
+                        except ExtractionError:
+                            defs_ = []
+                    if len(defs_) == 1:
+                        lits += [x.get('value', '').strip('"') for r_ in _walk(defs_[0]) if r_.get('kind') == 'ReturnStmt' for x in _walk(r_) if x.get('kind') == 'StringLiteral']
                 thn = n['inner'][1]
                 only_continue = all(x.get('kind') in ('CompoundStmt', 'ContinueStmt') for x in _walk(thn))
                 if lits and only_continue:
